@@ -4,6 +4,7 @@ import (
 	"io"
 
 	jsoniter "github.com/json-iterator/go"
+	"github.com/pkg/errors"
 	"github.com/yandex/pandora/core"
 	"github.com/yandex/pandora/core/coreutil"
 	"github.com/yandex/pandora/lib/ioutil2"
@@ -66,8 +67,16 @@ type JSONAmmoDecoder struct {
 
 func (d *JSONAmmoDecoder) Decode(ammo core.Ammo) error {
 	coreutil.ResetReusedAmmo(ammo)
+	// Nothing but white space before the end of the source is its regular end. The end of the source
+	// inside an ammo is a truncated ammo: a decode error, not the end of the ammo.
+	if d.iter.WhatIsNext() == jsoniter.InvalidValue && d.iter.Error != nil && *d.readErrorPtr != nil {
+		return *d.readErrorPtr
+	}
 	d.iter.ReadVal(ammo)
 	if d.iter.Error != nil {
+		if *d.readErrorPtr == io.EOF {
+			return errors.Wrap(io.ErrUnexpectedEOF, "ammo is truncated")
+		}
 		if *d.readErrorPtr != nil {
 			return *d.readErrorPtr
 		}
